@@ -214,6 +214,14 @@ def main(tier="quick"):
         for q in extra_shapes(backend):
             cases.append(Case(pid, backend, q, md, {"source": "shape"}))
             pid += 1
+        # the partiality programs (partial operations under guards, in tests and arms of conditionals, behind Wheres):
+        # the shapes in which scope placement is most delicate
+        from mc.checks import c04
+        for c in c04.build(backend, "quick"):
+            if c["query"] not in seen:
+                seen.add(c["query"])
+                cases.append(Case(pid, backend, c["query"], md, {"source": "partial"}))
+                pid += 1
     res = execute(cases, events, chunk_size=90, post=post, keep_files=True)
     # the name-uniqueness sweep sets the global counter itself, so it runs its own translations (syntax + scope walk)
     from mc.core.pipeline import wrap_metadata
